@@ -88,6 +88,10 @@ PANDAS_GROUPBY_TRANSFORM = {
     "cumsum", "cumprod", "cummax", "cummin", "cumcount", "shift", "rank", "bfill", "ffill", "ngroup", "prod",
 }
 
+# pandas groupby transforms / aggregations whose value depends on the order of the rows within a group (pandas documentation: first / last are
+# "the first / last non-null entry of each column", ffill / bfill propagate along the rows, cum* and shift run along them)
+PANDAS_ORDER_SENSITIVE_TRANSFORMS = {"cumsum", "cumprod", "cummax", "cummin", "cumcount", "shift", "first", "last", "ffill", "bfill"}
+
 # null semantics of numpy / polars primitives the executors bind comparison-like methods to
 NULL_SEMANTICS = {
     "numpy.maximum": "propagate", "numpy.minimum": "propagate", "numpy.fmax": "ignore", "numpy.fmin": "ignore",
@@ -201,7 +205,7 @@ ORDER_ROLE_OF_BUILDERS = {
     "rename_columns": ("keeps", "column renaming"),
     "natural_join": ("keeps", "left/inner/full merge keeps the left operand's row order"),
     "concat_rows": ("keeps", "rows of a then rows of b"),
-    "project_parsed_": ("reads", "first()/last() pick by position within the group"),
+    "project_parsed_": ("keeps", "the groups come out in the order of their first row on Polars (group_by(maintain_order=True)); any_value() picks by position"),
 }
 
 
